@@ -121,6 +121,12 @@ LOG (decisions)
 * Round 5: mutation type_degenerate (`type {}`, `type { tensor_type {} }`, explicit elem_type 0 with/without shape,
   sparse/sequence with elem_type 0; aimed at value_info of non-input initializers and node outputs), elem_type 0 in
   bad_elem_type: seeded C17-r5m2 / C17-r5m3 now reported by the fixpoint oracle with a shrunk proto.
+* Round 6: oracle_devices (D1: a node configuration whose name is registered on the model IS the registered object;
+  D2: a sharding spec naming an input/output of its node holds THAT Value object), mutation device_cfg (model + node
+  configurations at any depth incl. function bodies and their subgraphs, captured tensor name re-declared in the
+  subgraph), mutation fn_vi_both (IR<10: function value typed by FunctionProto.value_info and by a main-graph entry with
+  another type); directed cases dev-shadow / dev-fn-subgraph / fn-vi-both: seeded C17-r6m1, r6m3 (D2, D1) and r6m2
+  (fixpoint + correspondence) are reported with a shrunk proto at every seed.
 * IR < 10 experimental function value-info format: MODELLED since the deepening round (C03/ModelOld.v: deser_model_old =
   deser_model + post-pass applying main-graph value_info entries named "{domain}::{function}/{value}" to the function's
   inputs and node outputs; ser_model_old = functions without value_info + those entries appended to the main graph;
@@ -439,7 +445,7 @@ MUTATIONS = ["rename_existing", "rename_empty", "rename_new", "drop", "duplicate
              "move_node_inner", "dup_function", "fn_output_unknown", "attr_dup_name", "init_unnamed",
              "vi_for_unknown", "graph_attr_ref", "swap_scopes", "dup_init", "subgraph_output_outer",
              "name_field_absent", "generated_names", "dangling_with_external", "ir_version_low", "fn_attr_dup_graph", "dim_param_expr",
-             "type_degenerate", "fn_id_odd"]
+             "type_degenerate", "fn_id_odd", "device_cfg", "fn_vi_both"]
 
 
 EXT_VARIANTS = [
@@ -511,6 +517,54 @@ def directed_cases() -> list:
                 e = t.external_data.add()
                 e.key, e.value = k, v
             out.append((m, [f"directed:ext{i}:{where}"]))
+    # multi-device: shadowed tensor name on a sharded subgraph node; configured node in a subgraph of a function
+    def dev_cfg(node, cid, tname):
+        dc = node.device_configurations.add()
+        dc.configuration_id = cid
+        sp = dc.sharding_spec.add()
+        sp.tensor_name = tname
+        sp.device.extend([0, 1])
+        sd = sp.sharded_dim.add()
+        sd.axis = 0
+        sd.simple_sharding.add().num_shards = 2
+    for irv in (11, 13):
+        inner = H.make_graph([H.make_node("Add", ["x", "a"], ["y"], name="inner_add")], "body",
+                             [H.make_tensor_value_info("x", TP.FLOAT, [4, 2])], [H.make_tensor_value_info("y", TP.FLOAT, [4, 2])])
+        dev_cfg(inner.node[0], "pp", "x")
+        g = H.make_graph([H.make_node("Relu", ["x"], ["a"], name="n0"), H.make_node("Loop", ["a"], ["z"], name="n1", body=inner)],
+                         "g", [H.make_tensor_value_info("x", TP.FLOAT, [4, 2])], [H.make_tensor_value_info("z", TP.FLOAT, [4, 2])])
+        m = H.make_model(g, ir_version=irv, opset_imports=[H.make_opsetid("", 20)])
+        c = m.configuration.add()
+        c.name, c.num_devices = "pp", 2
+        out.append((m, [f"directed:dev-shadow:ir{irv}"]))
+        fin = H.make_graph([H.make_node("Relu", ["a"], ["b"], name="fn_inner")], "then", [], [H.make_tensor_value_info("b", TP.FLOAT, [4])])
+        dev_cfg(fin.node[0], "pp", "a")
+        f = onnx.FunctionProto(name="F", domain="custom.domain")
+        f.input.append("a")
+        f.output.append("o")
+        f.node.append(H.make_node("If", ["a"], ["o"], name="fn_if", then_branch=fin))
+        dev_cfg(f.node[0], "pp", "a")
+        f.opset_import.append(H.make_opsetid("", 20))
+        g = H.make_graph([H.make_node("F", ["x"], ["z"], name="call", domain="custom.domain")], "g",
+                         [H.make_tensor_value_info("x", TP.FLOAT, [4])], [H.make_tensor_value_info("z", TP.FLOAT, [4])])
+        m = H.make_model(g, ir_version=irv, opset_imports=[H.make_opsetid("", 20), H.make_opsetid("custom.domain", 1)], functions=[f])
+        c = m.configuration.add()
+        c.name, c.num_devices = "pp", 2
+        out.append((m, [f"directed:dev-fn-subgraph:ir{irv}"]))
+    # IR < 10: function value typed by FunctionProto.value_info AND by a main-graph entry with another type
+    for irv in (9, 8):
+        f = onnx.FunctionProto(name="F", domain="custom.domain")
+        f.input.append("a")
+        f.output.append("b")
+        f.node.append(H.make_node("Relu", ["a"], ["b"], name="fr"))
+        f.opset_import.append(H.make_opsetid("", 17))
+        f.value_info.append(H.make_tensor_value_info("b", TP.FLOAT, [2]))
+        for main_value in (False, True):
+            g = H.make_graph([H.make_node("Relu", [], ["custom.domain::F/b"], name="composite")] if main_value else [], "g", [], [])
+            g.value_info.append(H.make_tensor_value_info("custom.domain::F/b", TP.INT64, [7]))
+            m = H.make_model(g, ir_version=irv, opset_imports=[H.make_opsetid("", 17), H.make_opsetid("custom.domain", 1)],
+                             functions=[copy.deepcopy(f)])
+            out.append((m, [f"directed:fn-vi-both:ir{irv}:{'main-value' if main_value else 'entry-only'}"]))
     for v in range(6):
         for where, ty_of in (("init-vi", lambda m: m.graph.value_info[0].type), ("output-vi", lambda m: m.graph.value_info[1].type),
                              ("input", lambda m: m.graph.input[0].type)):
@@ -682,6 +736,70 @@ def mutate(m, rng, kind=None):
                 del f2.value_info[:]
             if rng.random() < 0.6:
                 m.ir_version = rng.choice([9, 8, 3])
+        elif kind == "device_cfg":
+            # multi-device metadata (IR >= 11): model configurations + node configurations on nodes of any depth
+            # (subgraphs, function bodies, subgraphs of function bodies), tensor names shadowed in the subgraph
+            if not nlists:
+                return None
+            if rng.random() < 0.85:
+                m.ir_version = rng.choice([11, 11, 13])
+            names = []
+            for nm, nd in rng.sample([("pp", 2), ("tp", 3), ("pp", 4)], rng.randrange(1, 3)):
+                c = m.configuration.add()
+                c.name, c.num_devices = nm, nd
+                if rng.random() < 0.5:
+                    c.device.extend([f"GPU:{i}" for i in range(nd)])
+                names.append(nm)
+            deep = [g for g in graphs[1:] if len(g.node)]
+            for _ in range(rng.randrange(1, 4)):
+                g = None
+                if deep and rng.random() < 0.6:
+                    g = rng.choice(deep)
+                    nd_ = rng.choice(g.node)
+                else:
+                    nd_ = rng.choice(rng.choice(nlists))
+                dc = nd_.device_configurations.add()
+                dc.configuration_id = rng.choice(names + names + ["ghost", ""])
+                if rng.random() < 0.4:
+                    dc.pipeline_stage = rng.randrange(3)
+                io = [x for x in list(nd_.input) + list(nd_.output) if x]
+                for _k in range(rng.randrange(0, 3)):
+                    sp = dc.sharding_spec.add()
+                    sp.tensor_name = rng.choice(io + io + ["nope"]) if io else "nope"
+                    sp.device.extend([0, 1])
+                    sd = sp.sharded_dim.add()
+                    sd.axis = rng.choice([0, 0, 1, -1])
+                    ss = sd.simple_sharding.add()
+                    ss.num_shards = 2
+                    if rng.random() < 0.5:
+                        ss.dim_value = 4
+                    else:
+                        ss.dim_param = "N"
+                    if g is not None and sp.tensor_name in nd_.input and rng.random() < 0.6:
+                        declared = {i.name for i in g.input} | {t.name for t in g.initializer} | {o for x in g.node for o in x.output}
+                        if sp.tensor_name not in declared:      # re-declare the captured name inside the subgraph
+                            g.input.append(H.make_tensor_value_info(sp.tensor_name, TP.FLOAT, [4, "N"]))
+        elif kind == "fn_vi_both":
+            # IR < 10: a function value typed BOTH by FunctionProto.value_info and by a main-graph entry
+            # "domain::function/value" with a different type
+            if not len(m.functions):
+                return None
+            f = rng.choice(m.functions)
+            typed = [x for x in list(f.input) + [o for n in f.node for o in n.output] if x]
+            if not typed:
+                return None
+            v = rng.choice(typed)
+            if not any(vi.name == v for vi in f.value_info):
+                f.value_info.append(H.make_tensor_value_info(v, TP.FLOAT, [2]))
+            cn = f"{f.domain}::{f.name}/{v}"
+            m.graph.value_info.append(H.make_tensor_value_info(cn, TP.INT64, [7, "K"]))
+            if rng.random() < 0.7:      # ... which also is the name of a main-graph value (node output / initializer)
+                if rng.random() < 0.5:
+                    m.graph.node.append(H.make_node("Relu", [], [cn], name="composite"))
+                else:
+                    m.graph.initializer.append(H.make_tensor(cn, TP.INT64, [1], [3]))
+            if rng.random() < 0.85:
+                m.ir_version = rng.choice([9, 8])
         elif kind == "map_type":
             tys = all_types(m)
             if not tys:
@@ -1136,6 +1254,31 @@ def oracle_invariants(model) -> list[str]:
     return bad
 
 
+def oracle_devices(model) -> list[str]:
+    """Multi-device part of "consistent IR" (identity level, what onnx_ir._multi_device._check_device_configurations
+    calls reachability): D1 a node configuration whose name is registered on the model IS the registered object;
+    D2 a sharding spec whose tensor name is the name of an input/output of its node refers to THAT Value object."""
+    bad = []
+    known = {c.name: c for c in model.device_configurations}
+    for n in S.IRWalk(model).nodes:
+        cfgs = getattr(n, "device_configurations", None) or ()
+        io = [v for v in list(n.inputs) + list(n.outputs) if v is not None]
+        for c in cfgs:
+            mc = c.configuration
+            if mc is not None and mc.name in known and mc is not known[mc.name]:
+                bad.append(f"D1: node {n.name!r} ({n.op_type}) holds a configuration object named {mc.name!r} "
+                           f"(num_devices={mc.num_devices}) that is not the one registered on the model")
+            for sp in c.sharding_specs:
+                v = sp.value
+                if v is None or not v.name:
+                    continue
+                same = [x for x in io if x.name == v.name]
+                if same and not any(x is v for x in same):
+                    bad.append(f"D2: node {n.name!r} ({n.op_type}) shards {v.name!r}: the spec's Value object is not "
+                               f"the node's own input/output of that name")
+    return bad[:4]
+
+
 def _shape_of_type(tp):
     """The TensorShapeProto a TypeProto carries (through sequence/optional nesting), or None."""
     if tp.HasField("tensor_type"):
@@ -1227,6 +1370,10 @@ def run_impl(proto) -> dict:
     if tr.events:
         res["oracle"].append(f"file access during tensor inspection: {tr.events[:3]}")
     res["oracle"] += oracle_invariants(model)
+    try:
+        res["oracle"] += oracle_devices(model)
+    except Exception as e:  # noqa: BLE001
+        res["oracle"].append(f"harness error in oracle_devices: {type(e).__name__}: {e}")
     res["oracle"] += oracle_leaf_dims(proto)[:3]
     try:
         q = ir.to_proto(model)
@@ -1542,7 +1689,7 @@ def _run(ck) -> None:
         for d in desc:
             ck.hist("mutations", d.split(":")[0])
         if res["oracle"]:
-            oracle_failures.append((p, desc, res["oracle"]))
+            oracle_failures.append((p, desc, res["oracle"], i))
         try:
             term, unm = case_term(p, res)
         except Exception as e:  # noqa: BLE001
@@ -1577,8 +1724,12 @@ def _run(ck) -> None:
     # known findings
     replay_known(ck)
     reported = set()
-    for p, desc, msgs in oracle_failures:
-        key = known_key(ck, msgs, p)
+    # A known finding is a defect of the UNCHANGED code, which the Coq model reproduces (model_fixpoint_x is false on
+    # its witnesses as well).  A failing case on which the implementation and the model DISAGREE (deser / reser /
+    # fixpoint) is therefore never attributed to a known finding, whatever the repair does.
+    disagree = {term_idx[j] for lst in (bad_d, bad_r, bad_f) for j in lst}
+    for p, desc, msgs, ci in oracle_failures:
+        key = None if ci in disagree else known_key(ck, msgs, p)
         if key:
             ck.known_finding(key, next(k["what"] for k in ck._known if k["key"] == key))
             continue
@@ -1766,7 +1917,7 @@ def search(ck, diverging: list) -> None:
     then fresh cases biased to every mutation kind."""
     for p in diverging:
         msgs = oracle_fails(p)
-        if msgs and not known_key(ck, msgs, p):
+        if msgs:                # implementation and model disagree on p: not a known finding (see _run)
             site = failure_site(msgs)
             small = shrink(p, lambda c, s=site: any(failure_site([m]) == s for m in oracle_fails(c)))
             ck.violation({"kind": "oracle-after-broken-obligation", "proto_b64": proto_b64(small),
